@@ -127,7 +127,9 @@ def project_table(table, gene, org, mnp_index, lo=None, hi=None):
     return [list(k) + [n] for k, n in sorted(c.items())]
 
 
-def project_allele(op):
+def project_allele(op, pos=None, org=0, mnp_index=None):
+    if mnp_index is not None and ">" in op and len(op) > 3 and f"{op}@{pos}" in mnp_index:
+        return ["mnp", mnp_index[f"{op}@{pos}"], 0]
     if op == "_":
         return ["ref", 0, 0]
     if op.startswith("ins"):
@@ -139,8 +141,8 @@ def project_allele(op):
     raise Projection(f"unknown phase allele {op}")
 
 
-def project_phase(ph, org, plo=None, phi=None):
-    return [[p - org] + project_allele(o) for p, o in sorted(ph.items()) if plo is None or plo <= p <= phi]
+def project_phase(ph, org, plo=None, phi=None, mnp_index=None):
+    return [[p - org] + project_allele(o, p, org, mnp_index) for p, o in sorted(ph.items()) if plo is None or plo <= p <= phi]
 
 
 _TEMPLATES = {}
@@ -239,7 +241,7 @@ class Batch:
                 try:
                     t, ph = direct_parse(self.gene, r)
                     ev["direct"] = project_table(t, self.gene, self.org, self.mnp_index)
-                    ev["dphase"] = project_phase(ph, self.org)
+                    ev["dphase"] = project_phase(ph, self.org, mnp_index=self.mnp_index)
                     ev["mnpq"] = mnp_quals(t, self.gene, self.org, self.mnp_index, self.G)
                     ev["hasdirect"] = True
                 except Projection as ex:
@@ -274,7 +276,7 @@ def table_event(batch, sample, lo, hi, plo=None, phi=None, keep=None):
                     raise Projection(f"Coverage.coverage({p},{op}) != table")
     phases = []
     for name, ph in sample.phases.items():
-        pp = project_phase(ph, org, plo if plo is not None else None, phi)
+        pp = project_phase(ph, org, plo if plo is not None else None, phi, mnp_index=batch.mnp_index)
         if pp:
             phases.append([str(name), pp])
     el = Counter()
@@ -484,7 +486,7 @@ def random_sets(ctx, rng, nsets, nreads, gene, text, path, genome, label, indelp
             t, ph = direct_parse(gene, sv)
             batch.rows.append({"k": "read", "id": batch.new_id(), "fresh": False, "r": spec_read(sv, batch.org, gene.chr),
                                "hasdirect": True, "direct": project_table(t, gene, batch.org, batch.mnp_index),
-                               "dphase": project_phase(ph, batch.org), "mnpq": mnp_quals(t, gene, batch.org, batch.mnp_index, batch.G),
+                               "dphase": project_phase(ph, batch.org, mnp_index=batch.mnp_index), "mnpq": mnp_quals(t, gene, batch.org, batch.mnp_index, batch.G),
                                "splitof": ev0["id"], "orig": ev0["r"], "origdirect": ev0["direct"]})
             reads.append(sv)
             ids.append(batch.rows[-1]["id"])
